@@ -366,3 +366,16 @@ func (v *Verifier) globalInit(fx *fnExec, g *ssa.Global) (SV, bool) {
 }
 
 func (v *Verifier) tableInit(fx *fnExec, g *ssa.Global) (SV, bool) { return nil, false }
+
+func (v *Verifier) knownFor(obl string) *KnownFinding {
+	if v.known == nil {
+		return nil
+	}
+	for i := range v.known.Findings {
+		k := &v.known.Findings[i]
+		if k.Status == "known" && k.Obligation == obl && (v.prop == "" || k.Property == v.prop) {
+			return k
+		}
+	}
+	return nil
+}
